@@ -93,6 +93,26 @@ void h_scan_c02(void) {
     __CPROVER_assert(vx_kept_P <= 1, "C02.kept_once: a protected retired object stays in the retired storage at most once");
     VX_REACH_GUARD();
 }
+/* retire_data() over a sorted hazard list of any length up to VX_WIDE_N: a retired pointer that occurs in the list is kept, one that does not is freed */
+#ifndef VX_WIDE_N
+#define VX_WIDE_N 4
+#endif
+size_t w_dhp_retire_data_wide(size_t n, void* p);
+void* wide_list[VX_WIDE_N];
+void* vx_sorted_ptr(size_t i) { return i < VX_WIDE_N ? wide_list[i] : NULL; }
+void h_retire_data_wide(void) {
+    size_t n, k; __CPROVER_assume(n >= 1 && n <= VX_WIDE_N && k < n);
+    for (unsigned i = 0; i < VX_WIDE_N; ++i) { wide_list[i] = vx_nondet_ptr(); if (i > 0) __CPROVER_assume(wide_list[i - 1] <= wide_list[i]); }   /* scan() sorts the list before the search */
+    vx_bool guarded = vx_nondet_int() & 1;
+    void* p = vx_nondet_ptr();
+    if (guarded) __CPROVER_assume(p == wide_list[k]);
+    else for (unsigned i = 0; i < VX_WIDE_N; ++i) if (i < n) __CPROVER_assume(wide_list[i] != p);
+    vx_T = p; vx_T_unprotected = !guarded; vx_P = guarded ? p : NULL;
+    size_t freed = w_dhp_retire_data_wide(n, p);
+    if (guarded) __CPROVER_assert(freed == 0 && vx_kept_P == 1 && vx_T_disposed == 0, "C02.no_free_while_guarded: a retired pointer found in the hazard list (any position, any list length) is kept, not freed");
+    else __CPROVER_assert(freed == 1 && vx_T_disposed == 1 && vx_kept_T == 0, "C03.freed_when_unprotected: a retired pointer that no hazard shows is freed");
+    VX_REACH_GUARD();
+}
 void h_scan_c03_free(void) {
     size_t n; unsigned w, g; __CPROVER_assume(n <= MAXRETIRE && w < VX_NREC && g >= 1 && g <= VX_WG_MAX);
     pick(1, 1);
